@@ -36,6 +36,9 @@
    [R15] ADD COLUMN refuses an existing column name (42701).
    [R16] serial / smallserial / bigserial = integer / smallint / bigint + an owned sequence (autoinc flag);
          the sequence name is chosen by PostgreSQL so as not to clash and is not tracked.
+   Representation: indexes and constraints of a table and the enum types of the database are maps keyed by
+   name (sorted association lists, Str.v bt_insert / bt_get = BTreeMap<String, _>), so that two catalogs holding
+   the same objects are equal terms whatever the order in which the objects were created.
    Not modelled (the engine accepts): cast feasibility, data-dependent failures, operator classes (e.g. an
    index on a json column), CHECK expression validity, identifier truncation at 63 bytes. *)
 From VV.PG Require Export Render.
@@ -52,15 +55,15 @@ Inductive con_kind :=
 | KUnique (cols : list string)
 | KFk (cols : list string) (rtable : string) (rcols : list string) (od ou : ref_action)
 | KCheck (expr : string).
-Record pg_con := mkCon { k_name : string; k_kind : con_kind }.
-Record pg_index := mkPi { pi_name : string; pi_cols : list string; pi_unique : bool; pi_con : bool }.
+Record pg_index := mkPi { pi_cols : list string; pi_unique : bool; pi_con : bool }.
 Record pg_table := mkPt {
   pt_name : string;
   pt_cols : list pg_col;
-  pt_cons : list pg_con;
-  pt_idx : list pg_index }.
-Record pg_enum := mkPe { pe_name : string; pe_labels : list string }.
-Record catalog := mkCat { c_tables : list pg_table; c_enums : list pg_enum }.
+  pt_cons : list (string * con_kind);     (* constraint name -> constraint, sorted by name *)
+  pt_idx : list (string * pg_index) }.    (* index name -> index, sorted by name *)
+Record catalog := mkCat {
+  c_tables : list pg_table;
+  c_enums : list (string * list string) }. (* enum type name -> labels, sorted by name *)
 Definition empty_catalog : catalog := mkCat [] [].
 
 Inductive pg_error :=
@@ -83,24 +86,29 @@ Inductive pg_error :=
 | ELabelExists (n l : string)                        (* R4 *)
 | ESyntax (what : string).                           (* R4 *)
 
+(* ---------- maps keyed by name ---------- *)
+Definition bt_remove {V} (k : string) (m : list (string * V)) : list (string * V) :=
+  filter (fun kv => negb (String.eqb (fst kv) k)) m.
+Definition bt_map {V W} (f : V -> W) (m : list (string * V)) : list (string * W) :=
+  map (fun kv => (fst kv, f (snd kv))) m.
+Definition bt_keys {V} (m : list (string * V)) : list string := map fst m.
+
 (* ---------- look-ups ---------- *)
 Definition find_table (n : string) (c : catalog) : option pg_table :=
   find (fun t => String.eqb (pt_name t) n) (c_tables c).
 Definition find_col (n : string) (t : pg_table) : option pg_col :=
   find (fun x => String.eqb (pc_name x) n) (pt_cols t).
 Definition has_col (n : string) (t : pg_table) : bool := existsb (fun x => String.eqb (pc_name x) n) (pt_cols t).
-Definition find_enum (n : string) (c : catalog) : option pg_enum :=
-  find (fun e => String.eqb (pe_name e) n) (c_enums c).
+Definition find_enum (n : string) (c : catalog) : option (list string) := bt_get n (c_enums c).
 
 Definition rel_names (c : catalog) : list string :=
-  flat_map (fun t => pt_name t :: map pi_name (pt_idx t)) (c_tables c).
+  flat_map (fun t => pt_name t :: bt_keys (pt_idx t)) (c_tables c).
 Definition rel_exists (n : string) (c : catalog) : bool := mem_str n (rel_names c).
 Definition type_exists (n : string) (c : catalog) : bool :=
-  (existsb (fun e => String.eqb (pe_name e) n) (c_enums c)
-   || existsb (fun t => String.eqb (pt_name t) n) (c_tables c))%bool.
+  (bt_mem n (c_enums c) || existsb (fun t => String.eqb (pt_name t) n) (c_tables c))%bool.
 
 Definition set_tables (c : catalog) (ts : list pg_table) : catalog := mkCat ts (c_enums c).
-Definition set_enums (c : catalog) (es : list pg_enum) : catalog := mkCat (c_tables c) es.
+Definition set_enums (c : catalog) (es : list (string * list string)) : catalog := mkCat (c_tables c) es.
 Definition map_table (n : string) (f : pg_table -> pg_table) (c : catalog) : catalog :=
   set_tables c (map (fun t => if String.eqb (pt_name t) n then f t else t) (c_tables c)).
 Definition replace_table (t' : pg_table) (n : string) (c : catalog) : catalog := map_table n (fun _ => t') c.
@@ -156,8 +164,8 @@ Fixpoint mentions_aux (c : string) (s tok : string) : bool :=
   end.
 Definition mentions (c expr : string) : bool := mentions_aux c expr EmptyString.
 
-Definition con_involves (c : string) (self : string) (k : pg_con) : bool :=
-  match k_kind k with
+Definition con_involves (c : string) (self : string) (k : con_kind) : bool :=
+  match k with
   | KPk cols | KUnique cols => mem_str c cols
   | KFk cols rt rcols _ _ => (mem_str c cols || (String.eqb rt self && mem_str c rcols))%bool
   | KCheck e => mentions c e
@@ -169,14 +177,14 @@ Definition inbound_fks (c : catalog) (t : string) (with_self : bool) (p : list s
   : list (string * string) :=
   flat_map (fun x =>
     if (negb with_self && String.eqb (pt_name x) t)%bool then []
-    else flat_map (fun k => match k_kind k with
+    else flat_map (fun k => match snd k with
                             | KFk _ rt rcols _ _ =>
-                                if (String.eqb rt t && p rcols)%bool then [(pt_name x, k_name k)] else []
+                                if (String.eqb rt t && p rcols)%bool then [(pt_name x, fst k)] else []
                             | _ => []
                             end) (pt_cons x)) (c_tables c).
 
-Definition unique_indexes_on (t : pg_table) (cols : list string) : list pg_index :=
-  filter (fun i => (pi_unique i && same_set (pi_cols i) cols)%bool) (pt_idx t).
+Definition unique_indexes_on (t : pg_table) (cols : list string) : list (string * pg_index) :=
+  filter (fun i => (pi_unique (snd i) && same_set (pi_cols (snd i)) cols)%bool) (pt_idx t).
 
 (* a foreign key certainly needs index i of table t when i is the only unique index over its referenced columns *)
 Definition fk_needing_index (c : catalog) (t : pg_table) (i : pg_index) : option (string * string) :=
@@ -196,15 +204,19 @@ Fixpoint choose_name (base : string) (taken : list string) (n : nat) (fuel : nat
   | S f => if mem_str cand taken then choose_name base taken (S n) f else cand
   end.
 Definition pkey_name (c : catalog) (t : pg_table) : string :=
-  choose_name (pt_name t +++ "_pkey") (rel_names c ++ map k_name (pt_cons t)) 0 9.
+  choose_name (pt_name t +++ "_pkey") (rel_names c ++ bt_keys (pt_cons t)) 0 9.
 
-Definition has_pk (t : pg_table) : bool :=
-  existsb (fun k => match k_kind k with KPk _ => true | _ => false end) (pt_cons t).
+Definition is_kpk (k : con_kind) : bool := match k with KPk _ => true | _ => false end.
+Definition has_pk (t : pg_table) : bool := existsb (fun k => is_kpk (snd k)) (pt_cons t).
 Definition set_notnull_cols (cols : list string) (t : pg_table) : pg_table :=
   mkPt (pt_name t)
        (map (fun x => if mem_str (pc_name x) cols
                       then mkPc (pc_name x) (pc_type x) true (pc_default x) (pc_autoinc x) else x) (pt_cols t))
        (pt_cons t) (pt_idx t).
+Definition with_con (t : pg_table) (n : string) (k : con_kind) : pg_table :=
+  mkPt (pt_name t) (pt_cols t) (bt_insert n k (pt_cons t)) (pt_idx t).
+Definition with_idx (t : pg_table) (n : string) (i : pg_index) : pg_table :=
+  mkPt (pt_name t) (pt_cols t) (pt_cons t) (bt_insert n i (pt_idx t)).
 
 (* add a primary key to table t (already in the catalog) [R5] *)
 Definition add_pk (c : catalog) (tn : string) (name : option string) (cols : list string)
@@ -216,18 +228,14 @@ Definition add_pk (c : catalog) (tn : string) (name : option string) (cols : lis
       else match first_missing cols t with
            | Some x => Err (ENoColumn tn x)
            | None =>
+               let mk (n : string) :=
+                 replace_table (with_idx (with_con (set_notnull_cols cols t) n (KPk cols)) n (mkPi cols true true)) tn c in
                match name with
                | Some n =>
                    if rel_exists n c then Err (ERelationExists n)
-                   else if mem_str n (map k_name (pt_cons t)) then Err (EConstraintExists tn n)
-                   else let t1 := set_notnull_cols cols t in
-                        Ok (replace_table (mkPt (pt_name t1) (pt_cols t1) (pt_cons t1 ++ [mkCon n (KPk cols)])
-                                                (pt_idx t1 ++ [mkPi n cols true true])) tn c)
-               | None =>
-                   let n := pkey_name c t in
-                   let t1 := set_notnull_cols cols t in
-                   Ok (replace_table (mkPt (pt_name t1) (pt_cols t1) (pt_cons t1 ++ [mkCon n (KPk cols)])
-                                           (pt_idx t1 ++ [mkPi n cols true true])) tn c)
+                   else if bt_mem n (pt_cons t) then Err (EConstraintExists tn n)
+                   else Ok (mk n)
+               | None => Ok (mk (pkey_name c t))
                end
            end
   end.
@@ -243,12 +251,11 @@ Definition add_unique (c : catalog) (tn : string) (name : option string) (cols :
           let n := match name with
                    | Some n => n
                    | None => choose_name (tn +++ "_" +++ join "_" cols +++ "_key")
-                                         (rel_names c ++ map k_name (pt_cons t)) 0 9
+                                         (rel_names c ++ bt_keys (pt_cons t)) 0 9
                    end in
           if rel_exists n c then Err (ERelationExists n)
-          else if mem_str n (map k_name (pt_cons t)) then Err (EConstraintExists tn n)
-          else Ok (replace_table (mkPt (pt_name t) (pt_cols t) (pt_cons t ++ [mkCon n (KUnique cols)])
-                                       (pt_idx t ++ [mkPi n cols true true])) tn c)
+          else if bt_mem n (pt_cons t) then Err (EConstraintExists tn n)
+          else Ok (replace_table (with_idx (with_con t n (KUnique cols)) n (mkPi cols true true)) tn c)
       end
   end.
 
@@ -275,15 +282,12 @@ Definition add_fk (c : catalog) (tn : string) (f : fkdef) : result catalog pg_er
                            let n := match fk_name f with
                                     | Some n => n
                                     | None => choose_name (tn +++ "_" +++ join "_" (fk_cols f) +++ "_fkey")
-                                                          (map k_name (pt_cons t)) 0 9
+                                                          (bt_keys (pt_cons t)) 0 9
                                     end in
-                           if mem_str n (map k_name (pt_cons t)) then Err (EConstraintExists tn n)
+                           if bt_mem n (pt_cons t) then Err (EConstraintExists tn n)
                            else Ok (replace_table
-                                      (mkPt (pt_name t) (pt_cols t)
-                                            (pt_cons t ++ [mkCon n (KFk (fk_cols f) (fk_rtable f) (fk_rcols f)
-                                                                       (norm_act (fk_on_delete f))
-                                                                       (norm_act (fk_on_update f)))])
-                                            (pt_idx t)) tn c)
+                                      (with_con t n (KFk (fk_cols f) (fk_rtable f) (fk_rcols f)
+                                                         (norm_act (fk_on_delete f)) (norm_act (fk_on_update f)))) tn c)
                        end
               end
           end
@@ -294,8 +298,8 @@ Definition add_check (c : catalog) (tn n e : string) : result catalog pg_error :
   match find_table tn c with
   | None => Err (ENoTable tn)
   | Some t =>
-      if mem_str n (map k_name (pt_cons t)) then Err (EConstraintExists tn n)
-      else Ok (replace_table (mkPt (pt_name t) (pt_cols t) (pt_cons t ++ [mkCon n (KCheck e)]) (pt_idx t)) tn c)
+      if bt_mem n (pt_cons t) then Err (EConstraintExists tn n)
+      else Ok (replace_table (with_con t n (KCheck e)) tn c)
   end.
 
 (* a column definition becomes a catalog column [R3] [R16] *)
@@ -308,15 +312,14 @@ Definition mk_col (c : catalog) (d : coldef) : result pg_col pg_error :=
 Definition update_col (t : pg_table) (cn : string) (f : pg_col -> pg_col) : pg_table :=
   mkPt (pt_name t) (map (fun x => if String.eqb (pc_name x) cn then f x else x) (pt_cols t)) (pt_cons t) (pt_idx t).
 
-Definition rename_con_cols (a b self : string) (k : pg_con) : pg_con :=
-  mkCon (k_name k)
-        match k_kind k with
-        | KPk cols => KPk (rename_in a b cols)
-        | KUnique cols => KUnique (rename_in a b cols)
-        | KFk cols rt rcols od ou =>
-            KFk (rename_in a b cols) rt (if String.eqb rt self then rename_in a b rcols else rcols) od ou
-        | KCheck e => KCheck e   (* PostgreSQL rewrites the stored expression; the text is opaque here *)
-        end.
+Definition rename_con_cols (a b self : string) (k : con_kind) : con_kind :=
+  match k with
+  | KPk cols => KPk (rename_in a b cols)
+  | KUnique cols => KUnique (rename_in a b cols)
+  | KFk cols rt rcols od ou =>
+      KFk (rename_in a b cols) rt (if String.eqb rt self then rename_in a b rcols else rcols) od ou
+  | KCheck e => KCheck e   (* PostgreSQL rewrites the stored expression; the text is opaque here *)
+  end.
 
 (* ---------- ALTER TABLE, one sub-command [R5] [R6] [R8] [R10] [R13] [R14] [R15] ---------- *)
 Definition exec_alter_op (c : catalog) (tn : string) (op : alter_op) : result (catalog * string) pg_error :=
@@ -349,8 +352,8 @@ Definition exec_alter_op (c : catalog) (tn : string) (op : alter_op) : result (c
                    Ok (replace_table
                          (mkPt (pt_name t)
                                (filter (fun x => negb (String.eqb (pc_name x) cn)) (pt_cols t))
-                               (filter (fun k => negb (con_involves cn tn k)) (pt_cons t))
-                               (filter (fun i => negb (mem_str cn (pi_cols i))) (pt_idx t))) tn c, tn)
+                               (filter (fun k => negb (con_involves cn tn (snd k))) (pt_cons t))
+                               (filter (fun i => negb (mem_str cn (pi_cols (snd i)))) (pt_idx t))) tn c, tn)
                end
       | ARenameColumn a b =>
           if negb (has_col a t) then Err (ENoColumn tn a)
@@ -360,19 +363,17 @@ Definition exec_alter_op (c : catalog) (tn : string) (op : alter_op) : result (c
                            (map (fun x => if String.eqb (pc_name x) a
                                           then mkPc b (pc_type x) (pc_notnull x) (pc_default x) (pc_autoinc x)
                                           else x) (pt_cols t))
-                           (map (rename_con_cols a b tn) (pt_cons t))
-                           (map (fun i => mkPi (pi_name i) (rename_in a b (pi_cols i)) (pi_unique i) (pi_con i))
-                                (pt_idx t)) in
+                           (bt_map (rename_con_cols a b tn) (pt_cons t))
+                           (bt_map (fun i => mkPi (rename_in a b (pi_cols i)) (pi_unique i) (pi_con i)) (pt_idx t)) in
             (* foreign keys of other tables follow the column *)
             Ok (set_tables c (map (fun x =>
                   if String.eqb (pt_name x) tn then t'
                   else mkPt (pt_name x) (pt_cols x)
-                            (map (fun k => match k_kind k with
-                                           | KFk cols rt rcols od ou =>
-                                               if String.eqb rt tn
-                                               then mkCon (k_name k) (KFk cols rt (rename_in a b rcols) od ou) else k
-                                           | _ => k
-                                           end) (pt_cons x)) (pt_idx x)) (c_tables c)), tn)
+                            (bt_map (fun k => match k with
+                                              | KFk cols rt rcols od ou =>
+                                                  if String.eqb rt tn then KFk cols rt (rename_in a b rcols) od ou else k
+                                              | _ => k
+                                              end) (pt_cons x)) (pt_idx x)) (c_tables c)), tn)
       | AAlterType cn ty _ =>
           with_col cn (fun x => match resolve_type c ty with
                                 | Err e => Err e
@@ -382,7 +383,7 @@ Definition exec_alter_op (c : catalog) (tn : string) (op : alter_op) : result (c
       | ASetNotNull cn =>
           with_col cn (fun x => Ok (mkPc (pc_name x) (pc_type x) true (pc_default x) (pc_autoinc x)))
       | ADropNotNull cn =>
-          if existsb (fun k => match k_kind k with KPk cols => mem_str cn cols | _ => false end) (pt_cons t)
+          if existsb (fun k => match snd k with KPk cols => mem_str cn cols | _ => false end) (pt_cons t)
           then (if has_col cn t then Err (EPkColumnNullable tn cn) else Err (ENoColumn tn cn))
           else with_col cn (fun x => Ok (mkPc (pc_name x) (pc_type x) false (pc_default x) (pc_autoinc x)))
       | ASetDefault cn e =>
@@ -395,39 +396,33 @@ Definition exec_alter_op (c : catalog) (tn : string) (op : alter_op) : result (c
       | AAddFk f => keep (add_fk c tn f)
       | AAddCheck n e => keep (add_check c tn n e)
       | ADropConstraint n =>
-          match find (fun k => String.eqb (k_name k) n) (pt_cons t) with
+          match bt_get n (pt_cons t) with
           | None => Err (ENoConstraint tn n)
           | Some k =>
+              let key := match k with KPk _ | KUnique _ => true | _ => false end in
               let drop_it := replace_table
-                               (mkPt (pt_name t) (pt_cols t)
-                                     (filter (fun x => negb (String.eqb (k_name x) n)) (pt_cons t))
-                                     (match k_kind k with
-                                      | KPk _ | KUnique _ =>
-                                          filter (fun i => negb (String.eqb (pi_name i) n)) (pt_idx t)
-                                      | _ => pt_idx t
-                                      end)) tn c in
-              match k_kind k with
-              | KPk _ | KUnique _ =>
-                  match find (fun i => String.eqb (pi_name i) n) (pt_idx t) with
-                  | Some i => match fk_needing_index c t i with
-                              | Some (bt, bk) => Err (EDependentFk tn bt bk)
-                              | None => Ok (drop_it, tn)
-                              end
-                  | None => Ok (drop_it, tn)
-                  end
-              | _ => Ok (drop_it, tn)
-              end
+                               (mkPt (pt_name t) (pt_cols t) (bt_remove n (pt_cons t))
+                                     (if key then bt_remove n (pt_idx t) else pt_idx t)) tn c in
+              if key then
+                match bt_get n (pt_idx t) with
+                | Some i => match fk_needing_index c t i with
+                            | Some (bt, bk) => Err (EDependentFk tn bt bk)
+                            | None => Ok (drop_it, tn)
+                            end
+                | None => Ok (drop_it, tn)
+                end
+              else Ok (drop_it, tn)
           end
       | ARenameTo b =>
           if rel_exists b c then Err (ERelationExists b)
           else if type_exists b c then Err (ETypeExists b)
           else
             Ok (set_tables c (map (fun x =>
-                  let cons' := map (fun k => match k_kind k with
-                                             | KFk cols rt rcols od ou =>
-                                                 if String.eqb rt tn then mkCon (k_name k) (KFk cols b rcols od ou) else k
-                                             | _ => k
-                                             end) (pt_cons x) in
+                  let cons' := bt_map (fun k => match k with
+                                                | KFk cols rt rcols od ou =>
+                                                    if String.eqb rt tn then KFk cols b rcols od ou else k
+                                                | _ => k
+                                                end) (pt_cons x) in
                   (* columns typed with the table's row type follow too *)
                   let cols' := map (fun y => if String.eqb (pc_type y) tn
                                              then mkPc (pc_name y) b (pc_notnull y) (pc_default y) (pc_autoinc y) else y)
@@ -459,6 +454,12 @@ Fixpoint add_checks (c : catalog) (tn : string) (l : list (string * string)) : r
 Definition is_quoted_literal (s : string) : bool :=
   (Nat.leb 2 (String.length s) && starts_with_char sq s && starts_with_char sq (rev_string s))%bool.
 
+Definition retype_cols (a b : string) (t : pg_table) : pg_table :=
+  mkPt (pt_name t)
+       (map (fun x => if String.eqb (pc_type x) a
+                      then mkPc (pc_name x) b (pc_notnull x) (pc_default x) (pc_autoinc x) else x) (pt_cols t))
+       (pt_cons t) (pt_idx t).
+
 (* ---------- one statement ---------- *)
 Definition exec (c : catalog) (s : stmt) : result catalog pg_error :=
   match s with
@@ -467,7 +468,7 @@ Definition exec (c : catalog) (s : stmt) : result catalog pg_error :=
       else if type_exists n c then Err (ETypeExists n)
       else match first_dup labels with
            | Some l => Err (ELabelExists n l)
-           | None => Ok (set_enums c (c_enums c ++ [mkPe n labels]))
+           | None => Ok (set_enums c (bt_insert n labels (c_enums c)))
            end
   | SDropType n =>                                                      (* [R11] *)
       match find_enum n c with
@@ -475,28 +476,22 @@ Definition exec (c : catalog) (s : stmt) : result catalog pg_error :=
       | Some _ =>
           if existsb (fun t => existsb (fun x => String.eqb (pc_type x) n) (pt_cols t)) (c_tables c)
           then Err (ETypeInUse n)
-          else Ok (set_enums c (filter (fun e => negb (String.eqb (pe_name e) n)) (c_enums c)))
+          else Ok (set_enums c (bt_remove n (c_enums c)))
       end
   | SRenameType a b =>                                                  (* [R12] *)
       match find_enum a c with
       | None => Err (ENoType a)
-      | Some _ =>
+      | Some labels =>
           if type_exists b c then Err (ETypeExists b)
-          else Ok (mkCat (map (fun t => mkPt (pt_name t)
-                                             (map (fun x => if String.eqb (pc_type x) a
-                                                            then mkPc (pc_name x) b (pc_notnull x) (pc_default x) (pc_autoinc x)
-                                                            else x) (pt_cols t))
-                                             (pt_cons t) (pt_idx t)) (c_tables c))
-                         (map (fun e => if String.eqb (pe_name e) a then mkPe b (pe_labels e) else e) (c_enums c)))
+          else Ok (mkCat (map (retype_cols a b) (c_tables c)) (bt_insert b labels (bt_remove a (c_enums c))))
       end
   | SAddValue n l =>
       match find_enum n c with
       | None => Err (ENoType n)
-      | Some e =>
+      | Some labels =>
           if negb (is_quoted_literal l) then Err (ESyntax "enum label is not a string literal")
-          else if mem_str l (pe_labels e) then Err (ELabelExists n l)
-          else Ok (set_enums c (map (fun x => if String.eqb (pe_name x) n then mkPe n (pe_labels x ++ [l]) else x)
-                                    (c_enums c)))
+          else if mem_str l labels then Err (ELabelExists n l)
+          else Ok (set_enums c (bt_insert n (labels ++ [l]) (c_enums c)))
       end
   | SCreateTable tn cols pks fks checks =>                              (* [R1] [R2] [R3] [R5] [R6] *)
       if rel_exists tn c then Err (ERelationExists tn)
@@ -543,21 +538,20 @@ Definition exec (c : catalog) (s : stmt) : result catalog pg_error :=
           if rel_exists n c then Err (ERelationExists n)
           else match first_missing cols t with
                | Some x => Err (ENoColumn tn x)
-               | None => Ok (replace_table (mkPt (pt_name t) (pt_cols t) (pt_cons t) (pt_idx t ++ [mkPi n cols u false])) tn c)
+               | None => Ok (replace_table (with_idx t n (mkPi cols u false)) tn c)
                end
       end
   | SDropIndex n =>                                                     (* [R9] *)
-      match find (fun t => existsb (fun i => String.eqb (pi_name i) n) (pt_idx t)) (c_tables c) with
+      match find (fun t => bt_mem n (pt_idx t)) (c_tables c) with
       | None => Err (ENoIndex n)
       | Some t =>
-          match find (fun i => String.eqb (pi_name i) n) (pt_idx t) with
+          match bt_get n (pt_idx t) with
           | None => Err (ENoIndex n)
           | Some i =>
               if pi_con i then Err (EIndexBacksConstraint n)
               else match fk_needing_index c t i with
                    | Some (bt, bk) => Err (EDependentFk (pt_name t) bt bk)
-                   | None => Ok (replace_table (mkPt (pt_name t) (pt_cols t) (pt_cons t)
-                                                     (filter (fun j => negb (String.eqb (pi_name j) n)) (pt_idx t)))
+                   | None => Ok (replace_table (mkPt (pt_name t) (pt_cols t) (pt_cons t) (bt_remove n (pt_idx t)))
                                                (pt_name t) c)
                    end
           end
@@ -614,48 +608,43 @@ Fixpoint first_pk_only (seen : bool) (cs : list table_constraint) : list table_c
   | k :: r => k :: first_pk_only seen r
   end.
 
-Definition con_cat (tn : string) (k : table_constraint) : list pg_con :=
+Definition con_cat (tn : string) (k : table_constraint) : list (string * con_kind) :=
   match k with
-  | CPrimaryKey _ cols => [mkCon (tn +++ "_pkey") (KPk cols)]
+  | CPrimaryKey _ cols => [(tn +++ "_pkey", KPk cols)]
   | CForeignKey n cols rt rcols od ou =>
-      [mkCon (build_foreign_key_name tn cols n) (KFk cols rt rcols (norm_act od) (norm_act ou))]
-  | CCheck n e => [mkCon n (KCheck e)]
+      [(build_foreign_key_name tn cols n, KFk cols rt rcols (norm_act od) (norm_act ou))]
+  | CCheck n e => [(n, KCheck e)]
   | CUnique _ _ | CIndex _ _ => []
   end.
-Definition is_unique_c (k : table_constraint) : bool := match k with CUnique _ _ => true | _ => false end.
-Definition is_index_c (k : table_constraint) : bool := match k with CIndex _ _ => true | _ => false end.
-Definition idx_cat (tn : string) (k : table_constraint) : list pg_index :=
+Definition idx_cat (tn : string) (k : table_constraint) : list (string * pg_index) :=
   match k with
-  | CPrimaryKey _ cols => [mkPi (tn +++ "_pkey") cols true true]
-  | CUnique n cols => [mkPi (build_unique_constraint_name tn cols n) cols true false]
-  | CIndex n cols => [mkPi (build_index_name tn cols n) cols false false]
+  | CPrimaryKey _ cols => [(tn +++ "_pkey", mkPi cols true true)]
+  | CUnique n cols => [(build_unique_constraint_name tn cols n, mkPi cols true false)]
+  | CIndex n cols => [(build_index_name tn cols n, mkPi cols false false)]
   | _ => []
   end.
 
 Definition table_cat (t : table_def) : pg_table :=
   let cs := first_pk_only false (t_constraints t) in
   mkPt (t_name t) (map (col_cat t) (t_columns t))
-       (flat_map (con_cat (t_name t)) cs)
-       (* creation order of a fresh CREATE: the key, then unique indexes, then plain indexes *)
-       (flat_map (idx_cat (t_name t)) (filter is_pk cs)
-        ++ flat_map (idx_cat (t_name t)) (filter is_unique_c cs)
-        ++ flat_map (idx_cat (t_name t)) (filter is_index_c cs)).
+       (bt_of_list (flat_map (con_cat (t_name t)) cs))
+       (bt_of_list (flat_map (idx_cat (t_name t)) cs)).
 
 (* one enum type per distinct string-enum name used in the table (first occurrence gives the labels) *)
-Fixpoint enums_of_cols (tn : string) (cols : list column_def) (seen : list string) : list pg_enum :=
+Fixpoint enums_of_cols (tn : string) (cols : list column_def) (seen : list string) : list (string * list string) :=
   match cols with
   | [] => []
   | c :: r =>
       match c_type c with
       | TEnum name vals =>
           if (ev_is_integer vals || mem_str name seen)%bool then enums_of_cols tn r seen
-          else mkPe (build_enum_type_name tn name) (enum_sql_values vals) :: enums_of_cols tn r (name :: seen)
+          else (build_enum_type_name tn name, enum_sql_values vals) :: enums_of_cols tn r (name :: seen)
       | _ => enums_of_cols tn r seen
       end
   end.
-Definition table_enums (t : table_def) : list pg_enum := enums_of_cols (t_name t) (t_columns t) [].
+Definition table_enums (t : table_def) : list (string * list string) := enums_of_cols (t_name t) (t_columns t) [].
 
-Definition catalog_of (s : schema) : catalog := mkCat (map table_cat s) (flat_map table_enums s).
+Definition catalog_of (s : schema) : catalog := mkCat (map table_cat s) (bt_of_list (flat_map table_enums s)).
 
 (* ---------- comparison of two catalogs (what C03 compares; comments are not part of it) ---------- *)
 Inductive diff_item :=
@@ -699,19 +688,17 @@ Definition table_diff (got want : pg_table) : list diff_item :=
                      | Some g => col_diff tn g w
                      end) (pt_cols want)
   ++ flat_map (fun g => if has_col (pc_name g) want then [] else [DExtraColumn tn (pc_name g)]) (pt_cols got)
-  ++ flat_map (fun w => match find (fun i => String.eqb (pi_name i) (pi_name w)) (pt_idx got) with
-                        | None => [DMissingIndex tn (pi_name w)]
-                        | Some g => if (str_list_eqb (pi_cols g) (pi_cols w) && Bool.eqb (pi_unique g) (pi_unique w)
-                                        && Bool.eqb (pi_con g) (pi_con w))%bool then [] else [DIndexDiffers tn (pi_name w)]
+  ++ flat_map (fun w => match bt_get (fst w) (pt_idx got) with
+                        | None => [DMissingIndex tn (fst w)]
+                        | Some g => if (str_list_eqb (pi_cols g) (pi_cols (snd w)) && Bool.eqb (pi_unique g) (pi_unique (snd w))
+                                        && Bool.eqb (pi_con g) (pi_con (snd w)))%bool then [] else [DIndexDiffers tn (fst w)]
                         end) (pt_idx want)
-  ++ flat_map (fun g => if existsb (fun i => String.eqb (pi_name i) (pi_name g)) (pt_idx want) then []
-                        else [DExtraIndex tn (pi_name g)]) (pt_idx got)
-  ++ flat_map (fun w => match find (fun k => String.eqb (k_name k) (k_name w)) (pt_cons got) with
-                        | None => [DMissingConstraint tn (k_name w)]
-                        | Some g => if con_kind_eqb (k_kind g) (k_kind w) then [] else [DConstraintDiffers tn (k_name w)]
+  ++ flat_map (fun g => if bt_mem (fst g) (pt_idx want) then [] else [DExtraIndex tn (fst g)]) (pt_idx got)
+  ++ flat_map (fun w => match bt_get (fst w) (pt_cons got) with
+                        | None => [DMissingConstraint tn (fst w)]
+                        | Some g => if con_kind_eqb g (snd w) then [] else [DConstraintDiffers tn (fst w)]
                         end) (pt_cons want)
-  ++ flat_map (fun g => if existsb (fun k => String.eqb (k_name k) (k_name g)) (pt_cons want) then []
-                        else [DExtraConstraint tn (k_name g)]) (pt_cons got).
+  ++ flat_map (fun g => if bt_mem (fst g) (pt_cons want) then [] else [DExtraConstraint tn (fst g)]) (pt_cons got).
 
 Definition cat_diff (got want : catalog) : list diff_item :=
   flat_map (fun w => match find_table (pt_name w) got with
@@ -720,11 +707,10 @@ Definition cat_diff (got want : catalog) : list diff_item :=
                      end) (c_tables want)
   ++ flat_map (fun g => match find_table (pt_name g) want with None => [DExtraTable (pt_name g)] | Some _ => [] end)
               (c_tables got)
-  ++ flat_map (fun w => match find_enum (pe_name w) got with
-                        | None => [DMissingType (pe_name w)]
-                        | Some g => if str_list_eqb (pe_labels g) (pe_labels w) then [] else [DTypeLabels (pe_name w)]
+  ++ flat_map (fun w => match bt_get (fst w) (c_enums got) with
+                        | None => [DMissingType (fst w)]
+                        | Some g => if str_list_eqb g (snd w) then [] else [DTypeLabels (fst w)]
                         end) (c_enums want)
-  ++ flat_map (fun g => match find_enum (pe_name g) want with None => [DExtraType (pe_name g)] | Some _ => [] end)
-              (c_enums got).
+  ++ flat_map (fun g => if bt_mem (fst g) (c_enums want) then [] else [DExtraType (fst g)]) (c_enums got).
 
 Definition cat_equiv (got want : catalog) : bool := match cat_diff got want with [] => true | _ => false end.
